@@ -413,7 +413,9 @@ func (z *ioDecReader) readxb(n uint) (out []byte, useBuf bool) {
 			nn -= n3
 			r += uint(n3)
 		}
-		halt.onerror(err)
+		if nn > 0 { // an error that comes with the last bytes requested is not ours to report
+			halt.onerror(err)
+		}
 	}
 	z.buf = out[:r0+n]
 	out = out[r0 : r0+n]
@@ -478,7 +480,9 @@ func (z *ioDecReader) skip(n uint) {
 			z.n += uint(n3)
 			nn -= n3
 		}
-		halt.onerror(err)
+		if nn > 0 { // an error that comes with the last bytes requested is not ours to report
+			halt.onerror(err)
+		}
 	}
 	if z.recording {
 		z.buf = out
